@@ -175,6 +175,20 @@ def check_subset(c):
                         res.check(np.abs(D2 - D1).max() <= sc and np.abs(D1 - M1).max() <= sc, 'class.reuse', case,
                                   lambda: 'cores() at another rank on the same object differs by %.3e' % np.abs(D2 - D1).max(), tags + ['reuse'])
                     res.check(np.array_equal(vals2, vals), 'class.reuse', case, 'ANOVA.__call__ changed after cores() were built', tags + ['reuse'])
+                    # a small rank first, a sufficient rank afterwards, on ONE object: the second answer is the model (nothing of the first,
+                    # truncated answer may survive); and rel_noise = 0 means "no noise" whatever the absolute noise argument says
+                    with warnings.catch_warnings():
+                        warnings.simplefilter('ignore')
+                        obj2 = teneva.ANOVA(I, y, order, sd)
+                        obj2.cores(2, 0.)
+                        Rbig = 2 if order == 1 else 64
+                        Dbig = ref.dense(obj2.cores(Rbig, 0.))
+                        Dfresh = ref.dense(teneva.ANOVA(I, y, order, sd).cores(Rbig, 0.))
+                        Drel = ref.dense(teneva.ANOVA(I, y, order, sd).cores(Rbig, 1e-2, rel_noise=0.))
+                    res.check(np.abs(Dbig - Dfresh).max() <= 1e-9 * (1 + np.abs(Dfresh).max()), 'class.reuse.rank_up', case,
+                              lambda: 'cores(%d) after cores(2) on the same object differs from cores(%d) of a fresh object by %.3e' % (Rbig, Rbig, np.abs(Dbig - Dfresh).max()), tags + ['reuse'])
+                    res.check(np.abs(Drel - Dfresh).max() <= 1e-9 * (1 + np.abs(Dfresh).max()), 'class.rel_noise_zero', case,
+                              lambda: 'cores(noise=1e-2, rel_noise=0.) is not the noise-free tensor (deviation %.3e)' % np.abs(Drel - Dfresh).max(), tags)
             if len(sel) < len(grid) or dup is not None:
                 res.nt((c['grid'], mask, dup))
     return res
